@@ -233,6 +233,19 @@ def run(M, c):
         except OverflowError:
             M.count("overflow")
             return
+        # ==, != and hash follow the timedelta value, however it is split between years/months and days
+        try:
+            twin = D(microseconds=td_us(d))
+            twin2 = D(years=y - 1, months=mo + 2, days=305, microseconds=a) if abs(y) < 15 else twin
+            for w_ in (twin, twin2):
+                if td_us(w_) != td_us(d):
+                    continue
+                ok_eq = (d == w_) is True and (w_ == d) is True and (d != w_) is False and hash(d) == hash(w_) and len({d, w_}) == 1 \
+                    and (d == dt.timedelta(microseconds=td_us(d))) is True
+                M.check("compare", ok_eq, "C10/eq-hash:years-months-split", "two Durations of the same timedelta value with another years/months split are not equal/hash-equal",
+                        d=repr(d), other=repr(w_))
+        except OverflowError:
+            pass
         rest = td_us(d) - (365 * y + 30 * mo) * 86400 * US
         ok = (n.years, n.months) == (-y, -mo) and td_us(n) == -td_us(d) and (m.years, m.months) == (y * k, mo * k)
         okm = td_us(m) == rest * k + (365 * y * k + 30 * mo * k) * 86400 * US
